@@ -11,8 +11,23 @@ class A:
         return self.__getattribute__(item)
 
 
+class P:
+    def __init__(self, x):
+        self.x = x
+
+    def __eq__(self, other):
+        if not isinstance(other, P):
+            return NotImplemented
+        return self.x == other.x
+
+    def __hash__(self):
+        return hash(self.x)
+
+
 def scenario():
     out = []
+    # __eq__ returning NotImplemented falls back to the reflected operand, then to identity
+    out.append([P(1) == P(1), P(1) != P(1), P(1) == P(2), P(1) == "1", "1" == P(1), P(1) != "1", P(1) is P(1), None == P(1), P(1) != None])
     # list mutated while iterated: live, index based
     l = [1, 2, 2, 3, 4]
     for v in l:
